@@ -17,7 +17,7 @@
 (*               account, gap, cost, assertion, comment, comment lines)    *)
 (*   "pairs"     every ordered pair of entries from a menu of constructs   *)
 (*   "lexicon"   generated accounts (72 two-segment names) and quoted        *)
-(*               commodities (12) in every position                        *)
+(*               commodities (19) in every position                        *)
 (*   "desc-chars" every description of <= 3 characters over 22 character   *)
 (*               classes, after a bare date, a status and a code           *)
 (*   "random"    RandomElement-drawn journals of 1..MaxEntries entries     *)
